@@ -13,7 +13,7 @@ SPEC = {
         ('K-next(fields obs/obs_ne/length)', 'next', '^fields:(obs|length)'),
         ('K-first(start fields)', 'first', '^inv:')],
     'bounded': [
-        ('alignment-postcondition', suites.case_C03, 400, 8000, RULE + '; ' + 'non-trivial = non-empty result with an early stop or a non-emitting state on the path; unique on/off', '')],
+        ('alignment-postcondition', suites.case_C03, 1500, 25000, RULE + '; ' + 'non-trivial = non-empty result with an early stop or a non-emitting state on the path; unique on/off', '')],
 }
 
 
